@@ -1198,7 +1198,8 @@ def expand_via_extends(settings):
     for name, v in list(settings.items()):
         if not (isinstance(v, dict) and v.pop("viaExtends", None)):
             continue
-        leaf_keys = ("firstAttempt", "extraTargets")
+        # (count / range / prefix keys are not inherited by the runner: they stay on the block itself)
+        leaf_keys = ("firstAttempt", "extraTargets", "numMarkets", "from", "to", "prefix", "userSubclass")
         own = {k: x for k, x in v.items() if k not in leaf_keys and k != "class"}
         cls_name = v["class"]
         tname = templates.get(cls_name)
@@ -1206,14 +1207,16 @@ def expand_via_extends(settings):
             tname = templates[cls_name] = "%s__template" % name
             t = {"class": cls_name}
             t.update({k: _wrong(x, markets) for k, x in own.items()})
-            t.setdefault("enabled", False)
+            if "Market" not in cls_name:
+                t.setdefault("enabled", False)
             settings[tname] = t
             taps.hits["event_template_block_with_other_values"] += 1
         else:
             taps.hits["second_event_deriving_from_the_same_template_block"] += 1
         mid = {"extends": tname}
         mid.update(own)
-        mid.setdefault("enabled", True)
+        if "Market" not in cls_name:
+            mid.setdefault("enabled", True)
         settings[name + "__mid"] = mid
         leaf = {"extends": name + "__mid"}
         leaf.update({k: v[k] for k in leaf_keys if k in v})
